@@ -399,4 +399,19 @@ def rule_use_sites(ctx):
         raise AnalysisGap("no RW-2 use-site obligations")
 
 
-RULES = [rule_rw1, rule_rw3, rule_rw4, rule_rw5, rule_comparisons, rule_strategy, rule_apply, rule_equality_predicate, rule_subsort_table, rule_use_sites]
+def rule_fresh_names(ctx):
+    """restrict_quantifier_domain replaces a general variable by a *fresh* integer variable: the chooser in classic.rs (a copy of tau-star's) must
+    avoid every variable of the formula and every name it has already handed out; otherwise two quantified variables are merged"""
+    from . import c01
+    fx = ctx.facts
+    b = fx.fn("classic::unstable::choose_fresh_variable_names")
+    c01.check_chooser(ctx, b, group="FRESH", tag="classic-chooser")
+    # what it is asked to avoid: the variables of the whole formula being rewritten
+    rh = fx.fn("unstable::replacement_helper")
+    cs = hq.calls(rh["body"], "unstable::choose_fresh_variable_names")
+    ok = len(cs) == 1 and "variables" in hq.render(cs[0]["args"][0]) and hq.local_of(strip(cs[0]["args"][0]).get("recv", {})) in ("formula",) or \
+        (len(cs) == 1 and "formula.variables()" in hq.render(cs[0]["args"][0]))
+    ctx.add("FRESH", "classic-chooser:taken-is-formula-variables", ok, ctx.site(rh), "the names to avoid are the variables of the formula in which the replacement happens: %s" % [hq.render(c["args"][0]) for c in cs])
+
+
+RULES = [rule_rw1, rule_rw3, rule_rw4, rule_rw5, rule_comparisons, rule_strategy, rule_apply, rule_equality_predicate, rule_subsort_table, rule_use_sites, rule_fresh_names]
